@@ -5,12 +5,14 @@ import itertools
 GROUPS = ['Debug', 'Clone', 'PartialEq', 'PartialOrd', 'Hash', 'Default', 'Deref', 'DerefMut', 'Into']
 # coupled partner that may be educed together with the group's primary trait
 PARTNER = {'Clone': 'Copy', 'PartialEq': 'Eq', 'PartialOrd': 'Ord'}
-TRAIT_PATH = {
-    'Debug': ':: core :: fmt :: Debug', 'Clone': ':: core :: clone :: Clone', 'Copy': ':: core :: marker :: Copy',
-    'PartialEq': ':: core :: cmp :: PartialEq', 'Eq': ':: core :: cmp :: Eq', 'PartialOrd': ':: core :: cmp :: PartialOrd',
-    'Ord': ':: core :: cmp :: Ord', 'Hash': ':: core :: hash :: Hash', 'Default': ':: core :: default :: Default',
-    'Deref': ':: core :: ops :: Deref', 'DerefMut': ':: core :: ops :: DerefMut', 'Into': ':: core :: convert :: Into',
+TRAIT_SRC = {
+    'Debug': '::core::fmt::Debug', 'Clone': '::core::clone::Clone', 'Copy': '::core::marker::Copy',
+    'PartialEq': '::core::cmp::PartialEq', 'Eq': '::core::cmp::Eq', 'PartialOrd': '::core::cmp::PartialOrd',
+    'Ord': '::core::cmp::Ord', 'Hash': '::core::hash::Hash', 'Default': '::core::default::Default',
+    'Deref': '::core::ops::Deref', 'DerefMut': '::core::ops::DerefMut', 'Into': '::core::convert::Into',
 }
+# canonical token strings of the trait paths; filled by xp.init_canon() with the driver's own tokeniser
+TRAIT_PATH = {}
 
 
 class XShape:
